@@ -248,6 +248,18 @@ func (m *model) execute(a string) (string, error) {
 	case "session-config":
 		s.Edits++
 		return m.libSessionConfig(s)
+	case "auth-nohome":
+		// a command that needs the keyring, started from the host's working tree in an environment that
+		// defines neither HOME nor XDG_CONFIG_HOME: wherever git-bug puts (or refuses to put) the
+		// credential, it is not the host's working tree
+		r, err := runNoHome(m.host(), 60*time.Second, m.p.GitBug, "bridge", "auth", "add-token", "sometoken", "-t", "github", "-l", "somelogin")
+		if err != nil {
+			return "", err
+		}
+		if r.Code != 0 && starved(r.Err) {
+			return "", fmt.Errorf("git-bug could not start a process (machine overloaded): %s", tidy(r.Err))
+		}
+		return cliOutcome(r), nil
 	}
 	return "", fmt.Errorf("unknown action %s", a)
 }
